@@ -16,6 +16,7 @@ PRIV_RULE = ("harness/src/bin/wrappers.rs: the REAL build_private_batch_constrai
              "equality hints, forged comparator splits, forged sum bits) for N<=3. All gate constraints evaluated; accept/reject and all "
              "21N+8 outputs compared with the Coq model (hon/ovr); fid 605 = hint-generator fingerprint vs model trace. "
              "distinct = distinct (fid, input, overrides); non-trivial = N >= 2 or an override present")
+PROP_FILES = ["C36", "E2E"]
 HARNESS = [("wrappers", ["two"])]
 FIDS = [3601]
 RULE = ("harness/src/bin/wrappers.rs: chained REAL wrapper circuits: M private wrappers (N leaves each, free leaf public inputs) whose "
